@@ -284,6 +284,22 @@ def run_stream(c, focus):
             c.add_events([e for e in recs if e["ev"] != "new"], key=lambda e: {k: v for k, v in e.items() if k not in ("st", "k")}, sample=1)
             os.remove(shard)
             del recs, eps
+        if b == "std-rel":
+            # one apply call over more than 2^32 bytes against the function specification and against the same stream in pieces
+            trace = os.path.join(wd, "big-%s.ndjson" % b)
+            vlib.run_harness(binary, ["stream-big", "--seed", str(c.seed), "--tier", c.tier], out=trace, timeout=3000)
+            recs = vlib.read_ndjson(trace)
+            os.remove(trace)
+
+            def mutate_big(e):
+                if e["ev"] == "ks":
+                    e["after"][len(e["after"]) // 2] ^= 4
+                else:
+                    e["pos_after"][2] ^= 1
+            vlib.validate_stateless(c, "TraceC01", recs, lambda e: {"ev": e["ev"], "variant": e["variant"], "tag": e["tag"], "res": e["res"].split(":")[0], "build": b},
+                                    mutate_big, "one apply call > 2^32 bytes (%s)" % b, workers=8)
+            c.add_events(recs, key=lambda e: {k: v for k, v in e.items() if k != "k"}, sample=1)
+            c.cov["one_call_4GiB_events"] = len(recs)
         if focus == "C11":
             trace = os.path.join(wd, "end64-%s.ndjson" % b)
             vlib.run_harness(binary, ["stream-end64", "--seed", str(c.seed), "--tier", c.tier], out=trace)
